@@ -256,3 +256,13 @@ _check_before_purity = check
 def check(ctx, run):  # noqa: F811
     purity_rule(ctx, run)
     _check_before_purity(ctx, run)
+
+
+_check_before_ctors = check
+
+
+def check(ctx, run):  # noqa: F811
+    _check_before_ctors(ctx, run)
+    from ..ctors import ctor_rule
+    from ..primaries import primary_classes
+    ctor_rule(ctx, run, "C01.R7", primary_classes(ctx.prog), {"cost"}, "the cost rate the hedger charges (h.cost) is not the one the instrument was created with")
